@@ -475,6 +475,12 @@ func (r *beRun) modeJanitor() {
 				explicitTTL = true
 			}
 
+			// ExpireAll stamps every entry with an expiration: from then on expirations have been set, the
+			// UnlimitedTTL shortcut ("nothing can have expired") no longer has its proof
+			if op.Kind == "expireAll" && len(m.m) > 0 {
+				explicitTTL = true
+			}
+
 			// keep the model in step (the sequential oracle proper is C07's)
 			one := []*beRec{rec}
 			save := len(out.Violations)
